@@ -782,7 +782,7 @@ def eval_real(ctx, suite, r, spec, items, universe, cfg, bm, env):
     if r.get("returned_types") != [CLASSNAME[k] for k in combo]:
         suite.violation(dict(rep, returned=r.get("returned_types")), "real parallel_add returned the wrong sketches")
         return None
-    sched, n_active = observed_schedule(r["trace"], spec["n_workers"])
+    sched, n_active, exact = observed_schedule(r["trace"], spec["n_workers"], r.get("created"), len(spec["combo"]))
     seen = sorted(i for w in sched for i in w)
     if seen != list(range(len(items))) or len(sched) != spec["n_workers"]:
         suite.violation(dict(rep, observed_schedule=sched), "an item was not processed exactly once (callback side channel)")
@@ -804,6 +804,9 @@ def eval_real(ctx, suite, r, spec, items, universe, cfg, bm, env):
         if bad:
             suite.violation(dict(rep, kind=kind, failed=bad, observed_schedule=sched), ctx.pid + " predicate (real run): " + bad["clause"])
             return None
+    if not exact:
+        fin.pop("hh", None)     # heavy-hitter merge is not commutative: no model comparison without the worker order
+        ctx.notes.append("real run: worker indices could not be recovered from the block names; heavy-hitter model comparison skipped")
     ctx.count("real_runs_ok")
     ctx.cov.setdefault("real_runs", []).append({"n_workers": spec["n_workers"], "wall_s": r["wall"], "call_s": r.get("call_s"),
                                                 "observed_schedule": sched, "workers_that_got_items": n_active})
@@ -937,23 +940,40 @@ def items_to_json(items):
     return [[i, [[list(k), v] for k, v in adds], ret, mode, cut] for i, adds, ret, mode, cut in items]
 
 
-def observed_schedule(trace_text, n_workers):
-    """(pid, idx) lines written by the callback -> per-worker item sequences (workers in order of
-    first appearance, idle workers last)"""
-    order, seqs = [], {}
+def observed_schedule(trace_text, n_workers, created=None, n_kinds=1):
+    """(pid, idx, block name) lines written by the callback -> per-worker item sequences.
+    The worker index of a process is recovered from the block name: parallel_add creates the blocks
+    worker by worker (l.331-344), `created` lists them in creation order.  Returns (schedule,
+    number of workers that got items, True when every worker index could be recovered); without
+    the names the workers are listed in order of first appearance (good enough for sketches whose
+    merge is commutative, not for heavy hitters)."""
+    order, seqs, names = [], {}, {}
     for line in trace_text.split("\n"):
         parts = line.split()
-        if len(parts) != 2:
+        if len(parts) < 2:
             continue
         pid, idx = int(parts[0]), int(parts[1])
         if pid not in seqs:
             seqs[pid] = []
             order.append(pid)
+            names[pid] = parts[2] if len(parts) > 2 else "-"
         seqs[pid].append(idx)
-    sched = [seqs[p] for p in order]
-    while len(sched) < n_workers:
-        sched.append([])
-    return sched, len(order)
+    created = [c.lstrip("/") for c in (created or [])]
+    index = {}
+    for pid in order:
+        nm = names[pid].lstrip("/")
+        if nm in created:
+            index[pid] = created.index(nm) // max(1, n_kinds)
+    exact = len(index) == len(order) and len(set(index.values())) == len(order) and all(i < n_workers for i in index.values())
+    if exact:
+        sched = [[] for _ in range(n_workers)]
+        for pid in order:
+            sched[index[pid]] = seqs[pid]
+    else:
+        sched = [seqs[p] for p in order]
+        while len(sched) < n_workers:
+            sched.append([])
+    return sched, len(order), exact
 
 
 def _real_main(spec_p, out_p):
@@ -1026,6 +1046,7 @@ def _real_main(spec_p, out_p):
     gc.collect()
     time.sleep(0.6)
     out["shm_created"] = len(created)
+    out["created"] = list(created)
     out["shm_left"] = shm_cleanup(list(created))
     try:
         out["trace"] = open(spec["trace_path"]).read()
